@@ -65,7 +65,8 @@ impl AsRawMsg for Msg {
         Ok(Msg {
             sid: msg.sid,
             program_uid: u32s[0],
-            num_fields: u32s[1] as u8,
+            num_fields: u8::try_from(u32s[1])
+                .map_err(|_| Error(format!("too many fields: {}", u32s[1])))?,
             fields: deserialize_fields(b)?,
         })
     }
